@@ -19,7 +19,8 @@ RULE = ("Hypothesis draws a configuration (target tensor d 2..4, mode sizes 1..4
         "Sub-check thresholds: targets that are not exactly low-rank (1/(1+sum i), sqrt(1+sum i), low rank + noise 1e-13..1e-4, decaying sums), "
         "thresholds e / e_vld = {1,2,3.3,5}*10^-14..-2: the documented rule evaluated on the values seen by the callback after every sweep predicts "
         "the sweep and reason of the end. Non-trivial = an interruption strictly inside a half-sweep, or a threshold crossed at sweep >= 2; "
-        "distinct by (case digest, fault kind, fault point).")
+        "distinct by (case digest, fault kind, fault point)."
+        " The budget reaches cross as Python int / float or as np.int64 / np.int32 / np.intp / np.float64 / np.float32 / 0-d array of the same value (cycled over the enumerated budgets).")
 TOLERANCES = "exact (counters, batch contents, stop reasons); returned tensors must be well-formed and finite; e/e_vld stops need value <= threshold"
 ASSUMPTIONS = ["the objective is deterministic", "m >= 1 (m = 0 means 'no budget' in the code: `int(m) if m else None`)",
                "'conv' is accepted as a documented reason only with a cache and only when m_cache > m_cache_scale*m after a sweep"]
@@ -133,8 +134,10 @@ def prop_config(case, ctx):
         j = 0
         while j < K and cum[j + 1] <= m:
             j += 1
-        Y, info, fm, _ = run(nswp=nswp, m=m)
-        ctx.check(fm.evaluated <= m, "more indices evaluated than the budget m", evaluated=fm.evaluated, m=m)
+        # the budget is documented as "int, float": the same number also as a NumPy scalar / 0-d array (np.prod(n) // 20, an option array entry)
+        spell = [int, float, np.int64, np.int32, np.float64, np.array, np.float32, np.intp][(m + K) % 8](m)
+        Y, info, fm, _ = run(nswp=nswp, m=spell)
+        ctx.check(fm.evaluated <= m, "more indices evaluated than the budget m", evaluated=fm.evaluated, m=m, m_given_as=type(spell).__name__)
         ctx.check(batches_equal(fm.batches, B[:j]), "budgeted run is not a prefix of the unconstrained run", m=m, calls=len(fm.batches), predicted=j)
         if j < K:
             ctx.check(info["stop"] == "m", "run should stop by budget exactly when the next batch would exceed it", m=m, stop=info["stop"], done=int(cum[j]), next=sizes[j])
